@@ -160,12 +160,34 @@ contract(E + 'prepare_tag', props=['C05'],
          ensures=["len(result) > 0"], labels={0: 'non-empty-text'},
          invariants={0: ["typeis(tag, 'str') and typeis(suffix, 'str')", "handle is None or typeis(handle, 'str')"], 1: _PT_INV, 2: _PT_INV},
          modifies=[], raises=[EERR])
-contract(E + 'analyze_scalar', trusted=True, why='character scan of the scalar; only the shape of the result is used here',
-         params={'scalar': 'str'}, result='obj:yaml.emitter.ScalarAnalysis', requires=[], ensures=["fresh(result) and result.scalar == scalar and result.empty == (len(scalar) == 0)",
-                                                                                                     "result.empty ==> not result.multiline"], modifies=[], raises=[])
+define('okc', ['s', 'ch'], "(ch == '\\n' or (' ' <= ch and ch <= '~')) or (s.allow_unicode and uniprintable(ch))")
+_AS_INV = ["typeis(scalar, 'str') and 0 <= index and index <= len(scalar)",
+           # C15: as long as no character was classified special, every character seen is printable ASCII / a line feed / (with allow_unicode) printable unicode
+           "not special_characters ==> forall(j, 0, index, okc(self, scalar[j]))",
+           # C02/C12: as long as no line break was seen there is none
+           "not line_breaks ==> forall(j, 0, index, scalar[j] not in %s)" % BRK]
+contract(E + 'analyze_scalar', props=['C15', 'C02', 'C05'], max_paths=2,
+         params={'scalar': 'str'}, result='obj:yaml.emitter.ScalarAnalysis', requires=[],
+         ensures=["fresh(result) and result.scalar == scalar and result.empty == (len(scalar) == 0)",
+                  "result.empty ==> not result.multiline",
+                  # C15: any style other than double quotes is allowed only for text made of printable ASCII, line feeds and (with allow_unicode) printable unicode
+                  "(result.allow_flow_plain or result.allow_block_plain or result.allow_single_quoted or result.allow_block) ==> forall(j, 0, len(scalar), okc(self, scalar[j]))",
+                  # C02/C12: plain style is allowed only for text without line breaks (what write_plain relies on)
+                  "(result.allow_flow_plain or result.allow_block_plain) ==> forall(j, 0, len(scalar), scalar[j] not in %s)" % BRK,
+                  "not result.multiline ==> forall(j, 0, len(scalar), scalar[j] not in %s)" % BRK,
+                  "(result.allow_flow_plain or result.allow_block_plain) ==> nobreaks(scalar)", "an_typed(result)"],
+         labels={0: 'analysis-of-this-text', 1: 'empty-is-single-line', 2: 'non-double-quoted-styles-only-for-printable-text', 3: 'plain-only-without-line-breaks', 4: 'multiline-flag-sound',
+                 5: 'plain-only-without-line-breaks-as-predicate', 6: 'flags-are-booleans'},
+         axioms=["forall(j, 0, len(scalar), scalar[j] not in %s) ==> nobreaks(scalar)" % BRK],
+         invariants={0: _AS_INV}, modifies=[], raises=[])
 
+define('an_typed', ['a'], "typeis(a.allow_flow_plain, 'bool') and typeis(a.allow_block_plain, 'bool') and typeis(a.scalar, 'str')")
+define('analysis_ok', ['s'], "s.analysis is None or (an_typed(s.analysis) and ((s.analysis.allow_flow_plain or s.analysis.allow_block_plain) ==> nobreaks(s.analysis.scalar)))")
+define('style_ok', ['s'], "(s.style is None or s.style in ['', chr(39), chr(34), '|', '>']) and (s.style == '' ==> (s.analysis is not None and (s.analysis.allow_flow_plain or s.analysis.allow_block_plain)))")
 define('is_node_event', ['e'], "typeis(e, 'obj:yaml.events.NodeEvent')")
 define('ev_ok', ['e'], "(typeis(e, 'obj:yaml.events.NodeEvent') ==> (e.anchor is None or typeis(e.anchor, 'str'))) and "
+                         # the abstract event classes have no direct instances: a collection start is a sequence start or a mapping start
+                         "(typeis(e, 'obj:yaml.events.CollectionStartEvent') ==> (typeis(e, 'obj:yaml.events.SequenceStartEvent') or typeis(e, 'obj:yaml.events.MappingStartEvent'))) and "
                          "((typeis(e, 'obj:yaml.events.ScalarEvent') or typeis(e, 'obj:yaml.events.CollectionStartEvent')) ==> (as_(e, 'obj:yaml.events.ScalarEvent').tag is None or typeis(as_(e, 'obj:yaml.events.ScalarEvent').tag, 'str'))) and "
                          "(typeis(e, 'obj:yaml.events.ScalarEvent') ==> (typeis(as_(e, 'obj:yaml.events.ScalarEvent').value, 'str') and typeis(as_(e, 'obj:yaml.events.ScalarEvent').implicit, 'tuple') and len(as_(e, 'obj:yaml.events.ScalarEvent').implicit) == 2 "
                          "and (as_(e, 'obj:yaml.events.ScalarEvent').style is None or as_(e, 'obj:yaml.events.ScalarEvent').style in ['', chr(39), chr(34), '|', '>'])))")
@@ -180,7 +202,7 @@ contract(E + 'process_anchor', props=['C05'],
     modifies=['self.prepared_anchor', 'self.whitespace', 'self.indention', 'self.column', 'self.open_ended'] + OUT, raises=[EERR] + ENCERR, raises_any=True)
 
 contract(E + 'choose_scalar_style', props=['C02', 'C08', 'C05'],
-    requires=["typeis(self.event, 'obj:yaml.events.ScalarEvent')", "ev_ok(self.event)"],
+    requires=["typeis(self.event, 'obj:yaml.events.ScalarEvent')", "ev_ok(self.event)", "analysis_ok(self)"],
     result='str',
     ensures=[
         "result == '' or result == '\"' or result == \"'\" or result == '|' or result == '>'",
@@ -191,15 +213,15 @@ contract(E + 'choose_scalar_style', props=['C02', 'C08', 'C05'],
         "result == '' ==> not (self.simple_key_context and (self.analysis.empty or self.analysis.multiline))",
         "(result == '|' or result == '>') ==> (self.analysis.allow_block and self.flow_level == 0 and not self.simple_key_context and not self.canonical)",
         "result == \"'\" ==> (self.analysis.allow_single_quoted and not (self.simple_key_context and self.analysis.multiline) and not self.canonical)",
-        "self.analysis is not None",
+        "self.analysis is not None", "analysis_ok(self)",
     ],
     labels={0: 'one-of-five-styles', 1: 'plain-needs-implicit-and-no-style-request', 2: 'plain-needs-analysis-permission', 3: 'plain-key-is-single-line-nonempty',
-            4: 'block-style-permission', 5: 'single-quoted-permission', 6: 'analysis-available'},
+            4: 'block-style-permission', 5: 'single-quoted-permission', 6: 'analysis-available', 7: 'analysis_ok'},
     modifies=['self.analysis'], raises=[])
 
-contract(E + 'process_tag', props=['C05', 'C02', 'C08'],
+contract(E + 'process_tag', props=['C05', 'C02', 'C08'], max_paths=24,
     requires=["inv_pos(self)", "typeis(self.event, 'obj:yaml.events.ScalarEvent') or typeis(self.event, 'obj:yaml.events.CollectionStartEvent')", "ev_ok(self.event)",
-              "inv_prefixes(self)", "inv_prep(self)"],
+              "inv_prefixes(self)", "inv_prep(self)", "analysis_ok(self)", "style_ok(self)"],
     ensures=["inv_pos(self)",
              # C05: whatever check_simple_key prepared for this node is consumed here, on every path
              "self.prepared_tag is None",
@@ -207,8 +229,11 @@ contract(E + 'process_tag', props=['C05', 'C02', 'C08'],
              "(typeis(self.event, 'obj:yaml.events.ScalarEvent') and LOG(self) == old(LOG(self))) ==> "
              "((self.style == '' and as_(self.event, 'obj:yaml.events.ScalarEvent').implicit[0]) or (self.style != '' and as_(self.event, 'obj:yaml.events.ScalarEvent').implicit[1]))",
              "typeis(self.event, 'obj:yaml.events.ScalarEvent') ==> self.style is not None",
-             "len(LOG(self)) <= old(len(LOG(self))) + 1"],
-    labels={0: 'inv_pos', 1: 'prepared-tag-consumed', 2: 'tag-elided-only-when-implicit-for-the-style', 3: 'style-chosen', 4: 'at-most-one-chunk'},
+             "len(LOG(self)) <= old(len(LOG(self))) + 1",
+             "analysis_ok(self)", "style_ok(self)",
+             "not typeis(self.event, 'obj:yaml.events.ScalarEvent') ==> (self.style is old(self.style) and self.analysis is old(self.analysis))"],
+    labels={0: 'inv_pos', 1: 'prepared-tag-consumed', 2: 'tag-elided-only-when-implicit-for-the-style', 3: 'style-chosen', 4: 'at-most-one-chunk',
+            5: 'analysis_ok', 6: 'style_ok', 7: 'collections-leave-the-scalar-scratch-alone'},
     modifies=['self.prepared_tag', 'self.style', 'self.analysis', 'self.whitespace', 'self.indention', 'self.column', 'self.open_ended'] + OUT,
     raises=[EERR] + ENCERR, raises_any=True)
 
@@ -287,10 +312,205 @@ _WP_INV = ["inv_pos(self)", "old(self.root_context) ==> self.open_ended",
 contract(E + 'write_plain', props=['C12', 'C15'], max_paths=6,
     params={'text': 'str', 'split': 'bool'},
     # plain style is only chosen for texts without line breaks (choose_scalar_style + analyze_scalar)
-    requires=["inv_pos(self)", "forall(i, 0, len(text), text[i] not in %s)" % BRK],
+    requires=["inv_pos(self)", "nobreaks(text)"], axioms=["nobreaks(text) ==> forall(i, 0, len(text), text[i] not in %s)" % BRK],
     ensures=["inv_pos(self)", "old(self.root_context) ==> self.open_ended",
              "not old(self.root_context) ==> self.open_ended == old(self.open_ended)"],
     labels={0: 'inv_pos', 1: 'root-plain-scalar-is-open-ended', 2: 'flag-untouched-elsewhere'}, dead_loops=[1],
     invariants={0: _WP_INV + ["end <= len(text) + 1", "breaks == False", "not old(self.root_context) ==> self.open_ended == old(self.open_ended)"],
                 1: _WP_INV + ["end <= len(text)", "not old(self.root_context) ==> self.open_ended == old(self.open_ended)"]},
     modifies=['self.whitespace', 'self.indention', 'self.column', 'self.line', 'self.open_ended'] + OUT, raises=ENCERR, raises_any=True)
+
+# ---- C05: simple-key eligibility
+contract(E + 'check_empty_sequence', props=['C05'], requires=[], result='any',
+    ensures=["result ==> (typeis(self.event, 'obj:yaml.events.SequenceStartEvent') and len(self.events) > 0 and typeis(self.events[0], 'obj:yaml.events.SequenceEndEvent'))"],
+    labels={0: 'only-for-start-immediately-followed-by-end'}, modifies=[], raises=[])
+contract(E + 'check_empty_mapping', props=['C05'], requires=[], result='any',
+    ensures=["result ==> (typeis(self.event, 'obj:yaml.events.MappingStartEvent') and len(self.events) > 0 and typeis(self.events[0], 'obj:yaml.events.MappingEndEvent'))"],
+    labels={0: 'only-for-start-immediately-followed-by-end'}, modifies=[], raises=[])
+contract(E + 'check_simple_key', props=['C05', 'C02'],
+    requires=["ev_ok(self.event)", "inv_prep(self)", "inv_prefixes(self)", "self.analysis is None"],
+    result='any',
+    ensures=["inv_prep(self)", "analysis_ok(self)", "not typeis(self.event, 'obj:yaml.events.ScalarEvent') ==> self.analysis is None",
+             # C05: a key is written as a simple key only if anchor + tag + text are shorter than 128 characters and it is one line
+             "result ==> ((typeis(self.event, 'obj:yaml.events.AliasEvent') or typeis(self.event, 'obj:yaml.events.ScalarEvent') or typeis(self.event, 'obj:yaml.events.CollectionStartEvent')))",
+             "(result and typeis(self.event, 'obj:yaml.events.ScalarEvent')) ==> (self.analysis is not None and not self.analysis.empty and not self.analysis.multiline and len(self.analysis.scalar) < 128)",
+             "(result and is_node_event(self.event) and as_(self.event, 'obj:yaml.events.NodeEvent').anchor is not None) ==> (self.prepared_anchor is not None and len(self.prepared_anchor) < 128)",
+             "(result and (typeis(self.event, 'obj:yaml.events.ScalarEvent') or typeis(self.event, 'obj:yaml.events.CollectionStartEvent')) and as_(self.event, 'obj:yaml.events.ScalarEvent').tag is not None) "
+             "==> (self.prepared_tag is not None and len(self.prepared_tag) < 128)"],
+    labels={0: 'inv_prep', 1: 'analysis_ok', 2: 'analysis-only-for-scalars', 3: 'only-node-events', 4: 'scalar-key-is-short-single-line-non-empty', 5: 'anchor-counted', 6: 'tag-counted'},
+    modifies=['self.prepared_anchor', 'self.prepared_tag', 'self.analysis'], raises=[EERR])
+
+
+# ================================================================================================ C05: the emitter state machine
+# For every expect_* state, every event and every well-typed continuation stack: the function either moves to a well-typed next
+# configuration or raises EmitterError (or what the caller's stream raises); states.pop() / indents.pop() are never applied to an
+# empty stack.  EST (emitter stack typing, the analogue of the parser's PST):
+#   kind OUT  (before/after/between documents, and the root before its continuation is pushed): states == [] and indents == []
+#   kind IN   : states == [expect_document_end, collection continuations...] and len(indents) == number of open collections
+#               = sum of weights of the stacked states + weight of the current state; every saved indent is None or an int;
+#               flow_level == number of flow-collection states among the stacked states and the current one.
+K_OUT, INN = 0, 2
+ESTATES = {
+    'expect_stream_start': (K_OUT, 0), 'expect_nothing': (K_OUT, 0), 'expect_first_document_start': (K_OUT, 0), 'expect_document_start': (K_OUT, 0),
+    'expect_document_root': (K_OUT, 0), 'expect_document_end': (K_OUT, 0),
+    'expect_first_flow_sequence_item': (INN, 1), 'expect_flow_sequence_item': (INN, 1),
+    'expect_first_flow_mapping_key': (INN, 1), 'expect_flow_mapping_key': (INN, 1), 'expect_flow_mapping_simple_value': (INN, 1), 'expect_flow_mapping_value': (INN, 1),
+    'expect_first_block_sequence_item': (INN, 1), 'expect_block_sequence_item': (INN, 1),
+    'expect_first_block_mapping_key': (INN, 1), 'expect_block_mapping_key': (INN, 1), 'expect_block_mapping_simple_value': (INN, 1), 'expect_block_mapping_value': (INN, 1),
+}
+ECOLL = ['expect_flow_sequence_item', 'expect_flow_mapping_key', 'expect_flow_mapping_simple_value', 'expect_flow_mapping_value',
+         'expect_block_sequence_item', 'expect_block_mapping_key', 'expect_block_mapping_simple_value', 'expect_block_mapping_value']
+e_kind = z3.Function('est_kind', V, z3.IntSort())
+e_w = z3.Function('est_w', V, z3.IntSort())
+e_coll = z3.Function('est_coll', V, z3.BoolSort())
+e_sum = z3.Function('est_sum', SeqV, z3.IntSort())
+e_ok = z3.Function('est_okstk', SeqV, z3.BoolSort())
+e_fw = z3.Function('est_fw', V, z3.IntSort())             # 1 for the states of an open flow collection, else 0
+e_fsum = z3.Function('est_fsum', SeqV, z3.IntSort())
+e_ints = z3.Function('est_ints', SeqV, z3.BoolSort())     # every saved indent is None or a non-negative int
+EFLOW = ['expect_first_flow_sequence_item', 'expect_flow_sequence_item', 'expect_first_flow_mapping_key', 'expect_flow_mapping_key',
+         'expect_flow_mapping_simple_value', 'expect_flow_mapping_value']
+
+
+def eref(ex, name):
+    return mk_r(ex.w.static('method:' + name))
+
+
+def emitter_tables(cx):
+    ex = cx.ex
+    s = z3.Const('es_s', SeqV)
+    x = z3.Const('es_x', V)
+    D = eref(ex, 'expect_document_end')
+    facts = [z3.And(e_kind(eref(ex, n)) == k, e_w(eref(ex, n)) == w, e_coll(eref(ex, n)) == (n in ECOLL), e_fw(eref(ex, n)) == (1 if n in EFLOW else 0))
+             for n, (k, w) in ESTATES.items()]
+    return z3.And(*facts,
+                  z3.ForAll([x], z3.Or(e_fw(x) == 0, e_fw(x) == 1), patterns=[e_fw(x)]),
+                  e_fsum(z3.Empty(SeqV)) == 0,
+                  z3.ForAll([s, x], e_fsum(z3.Concat(s, z3.Unit(x))) == e_fsum(s) + e_fw(x), patterns=[e_fsum(z3.Concat(s, z3.Unit(x)))]),
+                  z3.ForAll([x], e_fsum(z3.Unit(x)) == e_fw(x), patterns=[e_fsum(z3.Unit(x))]),
+                  z3.ForAll([s], e_fsum(s) >= 0, patterns=[e_fsum(s)]),     # lemma: induction on the stack, weights are 0/1
+                  e_ints(z3.Empty(SeqV)),
+                  z3.ForAll([s, x], e_ints(z3.Concat(s, z3.Unit(x))) == z3.And(e_ints(s), z3.Or(V.is_none(x), z3.And(V.is_i(x), iv(x) >= 0))), patterns=[e_ints(z3.Concat(s, z3.Unit(x)))]),
+                  z3.ForAll([x], e_ints(z3.Unit(x)) == z3.Or(V.is_none(x), z3.And(V.is_i(x), iv(x) >= 0)), patterns=[e_ints(z3.Unit(x))]),
+                  z3.ForAll([x], z3.Implies(e_coll(x), z3.And(e_kind(x) == INN, is_r(x), rv(x) < 0, e_w(x) == 1, x != D)), patterns=[e_coll(x)]),
+                  e_sum(z3.Empty(SeqV)) == 0,
+                  z3.ForAll([s, x], e_sum(z3.Concat(s, z3.Unit(x))) == e_sum(s) + e_w(x), patterns=[e_sum(z3.Concat(s, z3.Unit(x)))]),
+                  z3.ForAll([x], e_sum(z3.Unit(x)) == e_w(x), patterns=[e_sum(z3.Unit(x))]),
+                  z3.ForAll([s], e_sum(s) >= 0, patterns=[e_sum(s)]),       # lemma: induction on the stack, weights are 0/1
+                  z3.Not(e_ok(z3.Empty(SeqV))),
+                  z3.ForAll([x], e_ok(z3.Unit(x)) == (x == D), patterns=[e_ok(z3.Unit(x))]),
+                  z3.ForAll([s, x], z3.Implies(z3.Length(s) >= 1, e_ok(z3.Concat(s, z3.Unit(x))) == z3.And(e_ok(s), e_coll(x))), patterns=[e_ok(z3.Concat(s, z3.Unit(x)))]),
+                  z3.ForAll([s], z3.Implies(e_ok(s), z3.Length(s) >= 1), patterns=[e_ok(s)]))
+
+
+emitter_tables.__name__ = 'definitions: kind/weight/stackability of every emitter state; est_sum, est_okstk by recursion on the stack'
+
+
+def _estacks(cx):
+    ex, st = cx.ex, cx.st
+    me = st.env['self']
+    sl, il = ex.get_field(st, me, 'states'), ex.get_field(st, me, 'indents')
+    return ex.seq_of(st, sl), ex.seq_of(st, il), sl.t, il.t
+
+
+def _lists_distinct(cx):
+    """states, indents and events are three different heap lists (and none of them is the ghost output log)"""
+    ex, st = cx.ex, cx.st
+    me = st.env['self']
+    refs = [rv(ex.get_field(st, me, n).t) for n in ('states', 'indents', 'events')]
+    log = rv(cx.ev('self.stream.g_log').t)
+    return z3.And(z3.Distinct(*(refs + [log])), *[r >= 0 for r in refs])
+
+
+def est_for(cx, cur, pending=0):
+    """stack typing for current state value `cur`; pending=1: a node is about to be emitted (continuation already pushed)"""
+    states, indents, sl, il = _estacks(cx)
+    base = _lists_distinct(cx)
+    fl = iv(cx.ev('self.flow_level').t)
+    inside = z3.And(e_ok(states), z3.Length(indents) == e_sum(states) + e_w(cur), e_ints(indents), fl == e_fsum(states) + e_fw(cur))
+    outside = z3.And(z3.Length(states) == 0, z3.Length(indents) == 0, fl == 0)
+    known = z3.And(z3.Or(e_kind(cur) == K_OUT, e_kind(cur) == INN), is_r(cur), rv(cur) < 0)
+    return z3.And(base, known, z3.Implies(e_kind(cur) == INN, inside), z3.Implies(e_kind(cur) == K_OUT, outside))
+
+
+def est(name):
+    def f(cx):
+        return est_for(cx, eref(cx.ex, name))
+    f.__name__ = 'EST: stack typing for current state %s' % name
+    return f
+
+
+def est_after(cx):
+    return est_for(cx, cx.ev('self.state').t)
+
+
+est_after.__name__ = 'EST holds for the new current state'
+
+
+def est_node_pending(cx):
+    """a node is about to be emitted: its continuation is on top of a well-typed stack and owns no indent of its own yet"""
+    states, indents, sl, il = _estacks(cx)
+    return z3.And(_lists_distinct(cx), e_ok(states), z3.Length(indents) == e_sum(states), e_ints(indents), iv(cx.ev('self.flow_level').t) == e_fsum(states))
+
+
+est_node_pending.__name__ = 'EST: a node is pending (continuation pushed, indents match the open collections)'
+
+EREQ = ["inv_pos(self)", "ev_ok(self.event)", "inv_prep(self)", "inv_prefixes(self)", "self.flow_level >= 0",
+        "self.analysis is None and self.style is None", "len(self.events) > 0 ==> ev_ok(self.events[0])"]
+NREQ = ["inv_pos(self)", "ev_ok(self.event)", "inv_prep(self)", "inv_prefixes(self)", "self.flow_level >= 0",
+        "analysis_ok(self) and self.style is None and (not typeis(self.event, 'obj:yaml.events.ScalarEvent') ==> self.analysis is None)",
+        "len(self.events) > 0 ==> ev_ok(self.events[0])"]
+EENS = ["inv_pos(self)", est_after, "inv_prep(self)", "inv_prefixes(self)", "self.flow_level >= 0", "self.analysis is None and self.style is None"]
+ELBL = {0: 'inv_pos', 1: 'stack-typing-preserved', 2: 'inv_prep', 3: 'inv_prefixes', 4: 'flow-level-non-negative', 5: 'scalar-scratch-cleared'}
+EMOD = ['self.state', 'self.states[]', 'self.indents[]', 'self.indent', 'self.flow_level', 'self.root_context', 'self.sequence_context', 'self.mapping_context',
+        'self.simple_key_context', 'self.whitespace', 'self.indention', 'self.column', 'self.line', 'self.open_ended', 'self.prepared_anchor', 'self.prepared_tag',
+        'self.analysis', 'self.style'] + OUT
+ERAISE = [EERR] + ENCERR
+
+for _w in ['write_single_quoted', 'write_double_quoted']:
+    contract(E + _w, trusted=True, why='scalar writer loop: only its frame and inv_pos are used by the state-machine contracts', params={'text': 'str'},
+             requires=["inv_pos(self)"], ensures=["inv_pos(self)"], modifies=['self.whitespace', 'self.indention', 'self.column', 'self.line', 'self.open_ended'] + OUT,
+             raises=ENCERR, raises_any=True)
+for _w in ['write_folded', 'write_literal']:
+    contract(E + _w, trusted=True, why='scalar writer loop: only its frame and inv_pos are used by the state-machine contracts', params={'text': 'str'},
+             requires=["inv_pos(self)"], ensures=["inv_pos(self)"], modifies=['self.whitespace', 'self.indention', 'self.column', 'self.line', 'self.open_ended'] + OUT,
+             raises=ENCERR, raises_any=True)
+
+contract(E + 'process_scalar', props=['C05'],
+    requires=["inv_pos(self)", "typeis(self.event, 'obj:yaml.events.ScalarEvent')", "ev_ok(self.event)", "analysis_ok(self)", "style_ok(self)"],
+    ensures=["inv_pos(self)", "self.analysis is None and self.style is None"], labels={0: 'inv_pos', 1: 'scalar-scratch-cleared'},
+    modifies=['self.analysis', 'self.style', 'self.whitespace', 'self.indention', 'self.column', 'self.line', 'self.open_ended'] + OUT,
+    raises=ENCERR, raises_any=True)
+
+
+def estate(name, requires=(), extra_ens=(), extra_labels=None, params=None, **kw):
+    labels = dict(ELBL)
+    for k, v in (extra_labels or {}).items():
+        labels[k + len(EENS)] = v
+    contract(E + name, props=['C05', 'C12'], axioms=[emitter_tables], params=params or {},
+             requires=EREQ + [est(name)] + list(requires), ensures=EENS + list(extra_ens), labels=labels, modifies=EMOD, raises=ERAISE, raises_any=True, **kw)
+
+
+# helpers that are not states: they finish the node whose continuation is on top of the stack
+for _n in ['expect_alias', 'expect_scalar']:
+    contract(E + _n, props=['C05', 'C12'], axioms=[emitter_tables],
+             requires=EREQ[:5] + [est_node_pending, "typeis(self.event, 'obj:yaml.events.%s')" % ('AliasEvent' if _n == 'expect_alias' else 'ScalarEvent'),
+                                  "self.analysis is None and self.style is None" if _n == 'expect_alias' else "analysis_ok(self) and style_ok(self)"],
+             ensures=EENS, labels=ELBL, modifies=EMOD, raises=ERAISE, raises_any=True)
+for _n in ['expect_flow_sequence', 'expect_flow_mapping', 'expect_block_sequence', 'expect_block_mapping']:
+    contract(E + _n, props=['C05', 'C12'], axioms=[emitter_tables],
+             requires=EREQ + [est_node_pending], ensures=EENS, labels=ELBL, modifies=EMOD, raises=ERAISE, raises_any=True)
+contract(E + 'expect_node', props=['C05', 'C12'], axioms=[emitter_tables], max_paths=6,
+         params={'root': 'bool', 'sequence': 'bool', 'mapping': 'bool', 'simple_key': 'bool'},
+         requires=NREQ + [est_node_pending],
+         ensures=EENS + ["typeis(self.event, 'obj:yaml.events.AliasEvent') or typeis(self.event, 'obj:yaml.events.ScalarEvent') or typeis(self.event, 'obj:yaml.events.CollectionStartEvent')"],
+         labels=dict(ELBL, **{6: 'accepts-only-node-events'}) if False else {0: 'inv_pos', 1: 'stack-typing-preserved', 2: 'inv_prep', 3: 'inv_prefixes', 4: 'flow-level-non-negative', 5: 'scalar-scratch-cleared', 6: 'accepts-only-node-events'},
+         modifies=EMOD, raises=ERAISE, raises_any=True)
+
+estate('expect_document_root')
+for _n in ['expect_first_flow_sequence_item', 'expect_flow_sequence_item', 'expect_first_flow_mapping_key', 'expect_flow_mapping_key',
+           'expect_flow_mapping_simple_value', 'expect_flow_mapping_value', 'expect_first_block_sequence_item',
+           'expect_first_block_mapping_key', 'expect_block_mapping_simple_value', 'expect_block_mapping_value']:
+    estate(_n)
+for _n in ['expect_block_sequence_item', 'expect_block_mapping_key']:
+    estate(_n, params={'first': 'bool'})
